@@ -78,6 +78,7 @@ pub struct Eng<S: USet> {
     pub cur_hist_lines: usize,
     pub sig: BTreeSet<String>,
     pub cur_sig: String,
+    pub quiet: bool,
 }
 
 pub const NSLOTS: usize = 8;
@@ -157,6 +158,7 @@ impl<S: USet> Eng<S> {
             cur_hist_lines: 0,
             sig: BTreeSet::new(),
             cur_sig: String::new(),
+            quiet: false,
         };
         let m = match mode {
             Mode::Script => "script",
@@ -168,7 +170,7 @@ impl<S: USet> Eng<S> {
         e
     }
     pub fn emit(&mut self, line: &str) {
-        if self.mode != Mode::Unscripted {
+        if self.mode != Mode::Unscripted && !self.quiet {
             writeln!(self.out, "{}", line).unwrap();
         }
         if self.samples.len() < 12 && self.cur_hist_lines < 6 && !line.starts_with("cfg") {
